@@ -547,6 +547,58 @@ func checkBlockedAddrs(r *Run, rule, module string) {
 			okAddr = true
 		}
 	})
+	// every element: in each loop of BlockedAddrs that contains an insertion, the next iteration is reachable from the
+	// start of the body only through the insertion (no `continue` that lets some accounts through), and the collecting
+	// loop over maccPerms appends every key
+	everyElem := true
+	for _, hd := range ba.Blocks {
+		if !isLoopHeader(hd) {
+			continue
+		}
+		body := loopBody(hd)
+		var ins []ssa.Instruction
+		for b := range body {
+			for _, in := range b.Instrs {
+				switch x := in.(type) {
+				case *ssa.MapUpdate:
+					ins = append(ins, in)
+				case *ssa.Store:
+					// accs = append(accs, k)
+					if c, ok := stripValue(x.Val).(*ssa.Call); ok {
+						if bi, ok := c.Call.Value.(*ssa.Builtin); ok && bi.Name() == "append" {
+							ins = append(ins, in)
+						}
+					}
+				case *ssa.Call:
+					if bi, ok := x.Call.Value.(*ssa.Builtin); ok && bi.Name() == "append" {
+						ins = append(ins, in)
+					}
+				}
+			}
+		}
+		if len(ins) == 0 {
+			continue
+		}
+		isIns := func(in ssa.Instruction) bool {
+			for _, x := range ins {
+				if x == in {
+					return true
+				}
+			}
+			return false
+		}
+		for _, sc := range hd.Succs {
+			if !body[sc] || sc == hd {
+				continue
+			}
+			w := PathQuery{Fn: ba, StartBlock: sc, Block: isIns, Target: func(in ssa.Instruction) bool { return in.Block() == hd && in == hd.Instrs[0] }}.Search()
+			if w != nil {
+				everyElem = false
+			}
+		}
+	}
+	r.Check(everyElem, rule, fnID(ba)+"#no-account-skipped", P.Pos(fnPos(ba)), "every loop iteration collects / blocks its account",
+		"a loop of BlockedAddrs can move on to the next account without having collected or blocked the current one: some module accounts (those the filter skips) can receive plain transfers, so their balance no longer matches the module's own records")
 	r.Check(rangesMacc && insertsTrue >= 2 && removes == "" && okAddr, rule, fnID(ba)+"#blocks-every-module-account", P.Pos(fnPos(ba)), "every maccPerms account is blocked, nothing removed",
 		fmt.Sprintf("BlockedAddrs does not block every module account unconditionally (ranges maccPerms: %v, true-insertions: %d, removal: %q): a module account that can receive plain bank transfers gets coins its own ledger does not know about", rangesMacc, insertsTrue, removes))
 }
